@@ -10,6 +10,8 @@ Three layers.
    restriction to the defined (sample, variable) pairs — all sizes, all heterotopy patterns.
 2. *Algebra* (`Algebra`, any field, any dimensions): block equations, uniqueness of the solution,
    dual = primal, the two variance formulas.
+   Block targets: the weights and the estimate are the averages of the point-kriging ones over the
+   discretisation of the block (`block_weights`, `block_estimate`).
 3. *Certificates*: the driver checks on every generated configuration that the library's LHS/RHS
    equal the model's (built from an independent covariance oracle) and that its weights, dual
    vector, estimate, standard deviation and variance of the estimator satisfy the stage equations
@@ -42,6 +44,19 @@ theorem unique {m : Type*} [Fintype m] [DecidableEq m] (A : Matrix m m K) (w b :
 /-- the estimate computed in dual form equals the weighted sum of the (centred) data -/
 theorem dual {m : Type*} [Fintype m] [DecidableEq m] (A : Matrix m m K) (b z : m → K) (hs : Aᵀ = A) :
     b ⬝ᵥ (A⁻¹ *ᵥ z) = (A⁻¹ *ᵥ b) ⬝ᵥ z := dual_primal A b z hs
+
+/-- **block kriging**: the right-hand side of a block target is the average of the point right-hand
+sides over the discretisation of the block (`_rhsCalculBlock`); the weights, hence the estimate, are
+then the averages of the point-kriging weights / estimates over the same discretisation -/
+theorem block_weights {m : Type*} [Fintype m] [DecidableEq m] {d : Type*} [Fintype d]
+    (A : Matrix m m K) (b : d → m → K) (c : K) :
+    A⁻¹ *ᵥ (c • ∑ k, b k) = c • ∑ k, A⁻¹ *ᵥ b k := by
+  rw [Matrix.mulVec_smul, Matrix.mulVec_sum]
+
+theorem block_estimate {m : Type*} [Fintype m] [DecidableEq m] {d : Type*} [Fintype d]
+    (A : Matrix m m K) (b : d → m → K) (z : m → K) (c : K) :
+    (A⁻¹ *ᵥ (c • ∑ k, b k)) ⬝ᵥ z = c * ∑ k, (A⁻¹ *ᵥ b k) ⬝ᵥ z := by
+  rw [block_weights, smul_dotProduct, sum_dotProduct, smul_eq_mul]
 
 /-- returned variance = variance of the estimation error; `varZ` = variance of the estimator -/
 theorem variance (S : Matrix n n K) (X : Matrix n p K) (lam S0 : n → K) (nu X0 : p → K) (s00 : K)
